@@ -138,10 +138,16 @@ CHECKS = {
         note="NOT claimed: that every definition appears under exactly its schema name, Go field/JSON-tag naming, UPPER_SNAKE macro spelling, nested-name joining -- produced by character-inspecting code (case converters, regexes) that neither CrossHair nor z3 sequences can exhaust beyond 3-character strings here, and observed as existence of identifiers.",
         design="6/C15", engine="llsym+tmplsym",
     ),
+    "C18": dict(
+        category="other",
+        technique="symbolic execution of the real compiler over a compilation HISTORY (A, B, A in one run, z3 Int holes): first and third output identical as text + terms",
+        text="Kernel only: the one clause with a value quantifier, `independent of whether other schemas were compiled earlier in the same process` (and, with C20d, of whether linting is enabled). In one symbolic run the real parser+linter+renderers compile schema A, then a schema B that re-uses A's names with other values / marks / constant kinds, then A again; for all values of the holes of A and B the first and third rendering of A (C header, C source, Go, Python) must be the same text with the same terms for every symbolic literal. A difference is confirmed natively (one process compiling A, B, A).",
+        note="NOT claimed: independence of the process, PYTHONHASHSEED, working/output directory, relative vs absolute paths -- none is an input that can be made symbolic (the hash seed is fixed before the interpreter starts; id()-based hashing and dict order are properties of the runtime); deciding them means re-running the compiler, i.e. enumerating concrete runs.",
+        design="6/C18",
+    ),
 }
 
 NOT_APPLICABLE = {
-    "C18": "Quantifies over processes, hash seeds, directories and compilation history, none of which is an input that can be made symbolic; deciding it means re-running the compiler, i.e. enumerating concrete runs.",
 }
 
 NOT_YET = "check not built yet in this revision of /verif (see DESIGN.md section 6 for the planned solver-based check)"
@@ -183,7 +189,7 @@ def main():
             {"name": "tmplsym", "path": "vlib/tmplsym.py", "serves_properties": ["C10", "C15"], "kind_free_text": "translator from the ast of concatenation-template formatter methods to z3 sequence terms"},
             {"name": "gosym", "path": "vlib/gosym.py", "serves_properties": ["C04", "C05", "C14", "C19"], "kind_free_text": "tree-walking interpreter for the Go subset of lib/go/bitproto.go and generated Go (typed values, wrap-around arithmetic as z3 bit-vectors, Go shift semantics, interface dispatch, defer); no Go toolchain exists here"},
             {"name": "llsym", "path": "vlib/llsym.py", "serves_properties": ["C03", "C04", "C05", "C06", "C07", "C12", "C14", "C15", "C16"], "kind_free_text": "symbolic interpreter for clang-14 textual LLVM IR (z3 bit-vectors, concrete pointers, bounds-checked regions, if-conversion, DART forking), x86-64 and s390x data layouts"},
-            {"name": "pysym", "path": "vlib/pysym.py", "serves_properties": ["C01", "C02", "C05", "C07", "C08", "C09", "C11", "C12", "C13", "C14", "C17", "C20"], "kind_free_text": "DART-style symbolic execution of the real Python sources with z3 proxies (BV-192 / Int)"},
+            {"name": "pysym", "path": "vlib/pysym.py", "serves_properties": ["C01", "C02", "C05", "C07", "C08", "C09", "C11", "C12", "C13", "C14", "C17", "C18", "C20"], "kind_free_text": "DART-style symbolic execution of the real Python sources with z3 proxies (BV-192 / Int)"},
         ],
         "checks": checks,
         "not_applicable": na,
